@@ -19,6 +19,8 @@ import PurlModel.Lemmas.NormPaths
 import PurlModel.Lemmas.PctSpelling
 import PurlModel.Lemmas.Spells
 import PurlModel.Lemmas.PctComplete
+import PurlModel.Props.C05
+import PurlModel.Props.C07
 import PurlModel.Lemmas.RustUnicode
 namespace Purl.C02
 open Purl Purl.Generated
@@ -300,6 +302,77 @@ theorem undecodable_iff (w : Str) : decode w = .error .invalidEscape ↔ ¬ ∃ 
 a '%' before non-hex, a trailing '%') — and `%c3x` spells nothing -/
 example : decode "%41b%c3%A9%zz%".toList = .ok "Abé%zz%".toList := by decide
 example : decode "%c3x".toList = .error .invalidEscape := by decide
+
+/-- how each optional piece of an assembled string spells its component -/
+structure Spelled (w : Pieces) (nsSegs subSegs : List Str) (name ver : Str) : Prop where
+  ns : match w.ns with
+    | some x => NsSpx nsSegs (splitOn '/' (trimMatches '/' x))
+    | none => nsSegs = []
+  name : PctSpx name w.name
+  ver : match w.ver with
+    | some x => PctSpx ver x
+    | none => ver = []
+  sub : match w.sub with
+    | some x => SubSpx subSegs (splitOn '/' (trimMatches '/' x))
+    | none => subSegs = []
+
+/-- THE ACCEPTED LANGUAGE, GENERATIVELY AND EXACTLY.  The generic parser accepts `s` with result `p` if and
+only if `s` is assembled (`Pieces.assemble`, side conditions `Pieces.Ok`) from pieces that SPELL components:
+namespace and subpath piece-wise between raw '/' (`NsSpx`, `SubSpx`), name and version char-wise (`PctSpx`),
+the qualifier text as its decoder reads it — and `build()` of those components gives `p`.  One direction is
+the freedom of spelling (C02), the other is "nothing else is accepted" (C05, C07). -/
+theorem accepted_iff_generative (s : Str) (p : GPurl Str) :
+    parseS U s = .ok p ↔
+      ∃ (w : Pieces) (nsSegs subSegs : List Str) (name ver : Str) (q : Quals),
+        w.Ok ∧ s = w.assemble ∧ Spelled w nsSegs subSegs name ver ∧
+        (match w.quals with | some x => decodeQualifiers U x [] = .ok q | none => q = []) ∧
+        buildS U ⟨w.ty, { ns := joinWith '/' nsSegs, name := name, version := ver, quals := q,
+                          subpath := joinWith '/' subSegs }⟩ = .ok p := by
+  rw [C05.accepted_iff_spelling]
+  constructor
+  · rintro ⟨w, ns, name, ver, sub, q, hd, hb⟩
+    have hns : ∃ nsSegs, (match w.ns with
+        | some x => NsSpx nsSegs (splitOn '/' (trimMatches '/' x))
+        | none => nsSegs = []) ∧ ns = joinWith '/' nsSegs := by
+      have := hd.hns
+      cases hw : w.ns with
+      | none => rw [hw] at this; exact ⟨[], rfl, by simpa [joinWith] using this⟩
+      | some x =>
+        rw [hw] at this
+        obtain ⟨segs, h1, h2⟩ := (C07.namespace_segments_exactly x ns).1 this
+        exact ⟨segs, h1, h2⟩
+    have hsub : ∃ subSegs, (match w.sub with
+        | some x => SubSpx subSegs (splitOn '/' (trimMatches '/' x))
+        | none => subSegs = []) ∧ sub = joinWith '/' subSegs := by
+      have := hd.hsub
+      cases hw : w.sub with
+      | none => rw [hw] at this; exact ⟨[], rfl, by simpa [joinWith] using this⟩
+      | some x =>
+        rw [hw] at this
+        obtain ⟨segs, h1, h2⟩ := (C07.subpath_segments_exactly x sub).1 this
+        exact ⟨segs, h1, h2⟩
+    have hver : match w.ver with | some x => PctSpx ver x | none => ver = [] := by
+      have := hd.hver
+      cases hw : w.ver with
+      | none => rw [hw] at this; exact this
+      | some x => rw [hw] at this; exact decodes_pctSpx this
+    obtain ⟨nsSegs, hn1, rfl⟩ := hns
+    obtain ⟨subSegs, hs1, rfl⟩ := hsub
+    exact ⟨w, nsSegs, subSegs, name, ver, q, hd.ok, hd.eq, ⟨hn1, decodes_pctSpx hd.hname, hver, hs1⟩, hd.hq, hb⟩
+  · rintro ⟨w, nsSegs, subSegs, name, ver, q, hok, heq, hsp, hq, hb⟩
+    refine ⟨w, joinWith '/' nsSegs, name, ver, joinWith '/' subSegs, q, ⟨hok, heq, ?_, hq, ?_, pctSpx_decodes _ _ hsp.name, ?_⟩, hb⟩
+    · have := hsp.sub
+      cases hw : w.sub with
+      | none => rw [hw] at this; subst this; rfl
+      | some x => rw [hw] at this; exact (C07.subpath_segments_exactly x _).2 ⟨subSegs, this, rfl⟩
+    · have := hsp.ns
+      cases hw : w.ns with
+      | none => rw [hw] at this; subst this; rfl
+      | some x => rw [hw] at this; exact (C07.namespace_segments_exactly x _).2 ⟨nsSegs, this, rfl⟩
+    · have := hsp.ver
+      cases hw : w.ver with
+      | none => rw [hw] at this; exact this
+      | some x => rw [hw] at this; exact pctSpx_decodes _ _ this
 
 /-! ### extra slashes, raw dot segments -/
 
